@@ -8,7 +8,7 @@ import ast
 
 from ..core import AnchorError, call_name, decorators, norm, short, own_nodes, kwarg, FUNC_TYPES
 from ..cfg import cfg_of
-from ..lib import calls_in, stmts_in, gate, must_pass, node_has, params, enclosing_handlers, handler_types, effective_body
+from ..lib import calls_in, stmts_in, gate, must_pass, node_has, params, enclosing_handlers, handler_types, effective_body, fact_accept
 
 REFS = 'jedi.inference.references'
 PROJ = 'jedi.api.project'
@@ -179,8 +179,9 @@ def rule_e(repo, chk):
         for y in fy:
             # GATE (either spelling, also through a flag variable): the yield is reached only with these three facts
             def fact(text):
-                return gate(f, y.ast, lambda e, pol, text=text: pol and norm(e) == text)
-            w1, w2, w3 = fact('str(path) not in except_paths'), fact('str(path) not in except_paths_relative_expanded'), fact("path.suffix in ('.py', '.pyi')")
+                return gate(f, y.ast, fact_accept(f, text))
+            w1, w2, w3 = fact('str(file_io.path) not in except_paths'), fact('str(file_io.path) not in except_paths_relative_expanded'), \
+                fact("file_io.path.suffix in ('.py', '.pyi')")
             chk.ob('C19.e', w1 is None, y.ast, 'a python file is yielded only if its string path is not an absolute ignore entry', w1 or '')
             chk.ob('C19.e', w2 is None, y.ast, 'a python file is yielded only if its string path is not an expanded relative ignore entry', w2 or '')
             chk.ob('C19.e', w3 is None, y.ast, 'both .py and .pyi files are searched', w3 or '')
